@@ -18,5 +18,7 @@ MC_InitFits == <<{"A", "B"}, {"A", "B"}>>
 MC_InitFits3 == <<{"A", "B"}, {"A", "B"}, {"A", "B"}>>
 MC_Strat    == CanStrat
 MC_StratManual == [CanStrat EXCEPT !.cMode = "manual", !.cDuration = -1, !.cNoRestarts = -1]
+\* auto-fail at the first restart: the failure / rollback paths are reached with one environment disturbance
+MC_StratFailFast == [CanStrat EXCEPT !.afMaxRestarts = 0]
 MC_StratPct == [CanStrat EXCEPT !.cReplicas = IP(50, TRUE)]
 =============================================================================
